@@ -42,6 +42,24 @@ pub fn run_case(case: &SimCase, mon: Monitors) -> Run {
                         eprintln!("   node {} {what} -> {:?}; view {} {:?} -> view {} {:?}; emitted {:?}", r.node, r.out, r.before.view.0, r.before.phase, r.after.view.0, r.after.phase, r.emitted);
                     }
                     eprintln!("   committed: {:?}", w.correct().iter().map(|i| (*i, w.committed(*i).len())).collect::<Vec<_>>());
+                    for i in w.correct() {
+                        if let Some(sn) = w.node(i).snapshot() {
+                            let short = |h: &zksync_consensus_roles::validator::PayloadHash| format!("{h:?}").chars().rev().take(6).collect::<String>();
+                            eprintln!(
+                                "   node {i}: high_vote {:?} high_commit_qc {:?} cached {:?}",
+                                sn.high_vote.as_ref().map(|v| (v.view.number.0, v.proposal.number.0, short(&v.proposal.payload))),
+                                sn.high_commit_qc.as_ref().map(|q| (q.message.view.number.0, q.message.proposal.number.0, short(&q.message.proposal.payload))),
+                                sn.cached.iter().map(|(n, h)| (n.0, short(h))).collect::<Vec<_>>()
+                            );
+                        }
+                    }
+                    for (m, p) in w.pool.iter().enumerate().skip(w.trace_pool_seen.get()) {
+                        if let zksync_consensus_roles::validator::ConsensusMsg::V2(zksync_consensus_roles::validator::v2::ChonkyMsg::LeaderProposal(lp)) = &p.msg.msg {
+                            let (n, forced) = lp.justification.get_implied_block(&w.committee.schedule, w.first_block());
+                            eprintln!("   pool {m}: proposal view {} from {:?} crafted {} payload {} implied block {} forced {}", crate::sim::view_of(&p.msg), p.from, p.crafted, lp.proposal_payload.is_some(), n.0, forced.is_some());
+                        }
+                    }
+                    w.trace_pool_seen.set(w.pool.len());
                 }
                 if let Err(e) = check_monitors(&w, &mon, checked) {
                     result = Err(format!("after action {k} {a:?}: {e}"));
@@ -521,7 +539,8 @@ async fn fair_suffix(w: &mut World, info: &mut RunInfo, st: &mut Stats) -> Resul
             // nothing new to deliver: time passes and the view timers fire
             idle_rounds += 1;
             if idle_rounds > 60 {
-                return Err(format!("stuck: 60 timeout rounds change nothing (heights {:?}, views {:?})", after.2, views(w)));
+                let status: Vec<String> = w.correct().iter().map(|i| format!("node {i}: {}", w.node(*i).status())).collect();
+                return Err(format!("stuck: 60 timeout rounds change nothing (heights {:?}, views {:?}; {})", after.2, views(w), status.join("; ")));
             }
             apply(w, &Action::Timeout { mask: u16::MAX }, info).await?;
         }
